@@ -22,6 +22,7 @@
    Executable definitions only. *)
 From Coq Require Import List ZArith QArith Qabs Bool Arith.
 Import ListNotations.
+From PP Require Lib.RowInv.
 Local Open Scope Q_scope.
 
 Definition row := list (nat * Q).      (* (column, value), duplicates allowed (summed) *)
@@ -77,7 +78,9 @@ Record inst := mk_inst {
   i_rrows : list row;                 (* [rotation_displacement | rotation_rotation | 0 | bound_rotation_displacement], rd*nf rows *)
   i_mrows : list row;                 (* [solid_mass_displacement | 0 | solid_mass_total_pressure | bound_mass_displacement], nf rows *)
   i_arows : list row;                 (* [c2f (captured) | 0 | 0 | bound_displacement_face], nd*nf rows *)
-  i_acc : list Q                      (* accumulation diagonal for rotation (rd*nc) and solid pressure (nc) *)
+  i_acc : list Q;                     (* accumulation diagonal for rotation (rd*nc) and solid pressure (nc) *)
+  i_inv : option (list (list Q) * Q)  (* optional certificate (N, d): N * A = d * I for the assembled
+                                         system matrix A (first ndof columns of system_rows) *)
 }.
 
 Definition ndof (I : inst) : nat := (i_nd I + i_rd I + 1) * i_nc I.
@@ -196,11 +199,18 @@ Definition shape_ok (I : inst) : bool :=
   && (length (i_acc I) =? (i_rd I + 1) * i_nc I)
   && forallb (fun ic => forallb (fun fs => fst fs <? i_nf I) ic) (i_inc I).
 
+(* exact left-inverse certificate of the assembled system matrix (small instances) *)
+Definition inv_cert_ok (I : inst) : bool :=
+  match i_inv I with
+  | None => true
+  | Some Nd => RowInv.inv_ok (ndof I) (system_rows I) (fst Nd) (snd Nd)
+  end.
+
 Definition check (tol : Q) (I : inst) : bool :=
   shape_ok I && stress_ok tol I && avg_ok tol I && mass_ok tol I && rot_ok tol I
-  && normals_ok tol I && system_ok tol I.
+  && normals_ok tol I && system_ok tol I && inv_cert_ok I.
 
 (* diagnostics: which certificate fails *)
 Definition check_diag (tol : Q) (I : inst) :=
   (shape_ok I, stress_ok tol I, avg_ok tol I, (mass_ok tol I, rot_ok tol I),
-   normals_ok tol I, system_ok tol I).
+   normals_ok tol I, system_ok tol I, inv_cert_ok I).
